@@ -190,7 +190,11 @@ def check(c, item):
     # parameters survive failing calls as well
     for bad_call in (lambda: py_get_sensitivity_to_parameter(m, x_model, 'no_such_parameter'),
                      lambda: py_get_sensitivity_to_parameter(m, x_model, 'k', method='no_such_method'),
-                     lambda: py_get_jacobian(m, x_model, method='no_such_method')):
+                     lambda: py_get_jacobian(m, x_model, method='no_such_method'),
+                     # a state vector that is too long (a result row that still carries its time column) 
+                     lambda: py_get_sensitivity_to_parameter(m, np.append(x_model, 0.7), 'k'),
+                     lambda: py_get_sensitivity_to_parameter(m, np.append(x_model, 0.7), 'k2', method='forward_difference'),
+                     lambda: py_get_jacobian(m, np.append(x_model, 0.7))):
         try:
             bad_call()
         except Exception:
